@@ -332,6 +332,7 @@ func streamHCheck(t *testing.T, o *Out) {
 			k = 6 + r.Intn(5)
 		}
 		o.Count(fmt.Sprintf("batch-size:%d", k))
+		o.Pre("hcheck", fmt.Sprintf("h%d", i), fmt.Sprintf("%d (entries of this case: regenerate the run; max-depth=%d)", k, depth))
 		entries := make([]hEntry, k)
 		for j := range entries {
 			tt := env.genTuple(r, objs, subs)
@@ -438,6 +439,7 @@ func streamHCheck(t *testing.T, o *Out) {
 			ts = append(ts, en.t)
 			ps = append(ps, protoTuple(en.t))
 		}
+		o.Pre("hcheck", fmt.Sprintf("h%d", i), payload.String())
 		bb, _ := json.Marshal(map[string]any{"tuples": ts})
 		bc, bresp, _ := env.do(env.read, "POST", check.BatchRoute+"?"+strings.TrimPrefix(dq, "&"), bb)
 		rest := fmt.Sprintf("status%d", bc)
